@@ -1,7 +1,211 @@
 import ComposeVerif.Ops.Common
-/-! line-protocol ops for C04 (filled in by the property's owner) -/
-namespace CV.Ops.C04
+import ComposeVerif.Model.Merge
+import ComposeVerif.Model.Unicity
+import ComposeVerif.Model.Reset
+/-! line-protocol ops for C04: `c04.pathNext`, `c04.mergeSeq`, `c04.unicity`, `c04.parseVolume`,
+`c04.reset`, `c04.docs`.
 
-def handlers : List (String × Handler) := []
+On a *failing* input the real code reports whichever failure Go's map iteration reaches first, so the
+handlers also return `alts`: every failure reachable under some iteration order (DESIGN §2.6).  That
+collection code is tie-side only; no theorem is about it. -/
+open Lean
+namespace CV.Ops.C04
+open CV CV.Val CV.Merge
+
+def getVal (j : Json) (k : String) : Val :=
+  match Val.ofJson (getObj j k) with
+  | .ok v => v
+  | .error _ => .null
+
+def getVals (j : Json) (k : String) : List Val :=
+  match getObj j k with
+  | .arr a => a.toList.map fun x => match Val.ofJson x with | .ok v => v | .error _ => .null
+  | _ => []
+
+def failJson {α : Type} : Out α → Option Json
+  | .ok _ => none
+  | .err e => some (Json.mkObj [("err", e)])
+  | .panic s => some (Json.mkObj [("panic", s)])
+
+def outJson (o : Out Val) (alts : List Json) (hazard : Bool := false) : Json :=
+  match o with
+  | .ok v => Json.mkObj ([("ok", v.toJson)] ++ (if hazard then [("hazard", Json.bool true)] else []))
+  | .err e => Json.mkObj [("err", e), ("alts", Json.arr alts.toArray)]
+  | .panic s => Json.mkObj [("panic", s), ("alts", Json.arr alts.toArray)]
+
+/-- every failure some iteration order of the override maps can reach first -/
+partial def failsYaml (fuel : Nat) (e o : Val) (p : TPath) : List Json :=
+  match fuel with
+  | 0 => []
+  | f + 1 =>
+  let r := mergeYaml (f + 1) e o p
+  match failJson r with
+  | none => []
+  | some own =>
+    let via (a b : KVs) : List Json :=
+      let l := b.flatMap fun (k, v) =>
+        match lookup k a with
+        | some x => if hasXPrefix k then [] else failsYaml f x v (next p k)
+        | none => []
+      if l.isEmpty then [own] else l
+    match ruleAt p with
+    | none => match e, o with
+      | .map a, .map b => via a b
+      | _, _ => [own]
+    | some .build => match toBuild e, toBuild o with
+      | some a, some b => via a b
+      | _, _ => [own]
+    | some .dependsOn => match intoMap dependsOnDefault e, intoMap dependsOnDefault o with
+      | .ok (some a), .ok (some b) => via a b
+      | _, _ => [own]
+    | some .networks => match intoMap .null e, intoMap .null o with
+      | .ok (some a), .ok (some b) => via a b
+      | _, _ => [own]
+    | some .logging => match e, o with
+      | .map a, .map b =>
+        match ifaceEq ((lookup "driver" b).getD .null) ((lookup "driver" a).getD .null) with
+        | none => [own]
+        | some _ => via a b
+      | _, _ => [own]
+    | some .ulimit => match o with
+      | .map kvs => via kvs kvs
+      | _ => [own]
+    | _ => [own]
+
+/-- ipam merges whose outcome can depend on Go's aliasing of nested maps (modelled with value semantics):
+an override pool that carries a mapping-valued field -/
+def ipamHazard (over : Val) : Bool :=
+  match over with
+  | .map top =>
+    match lookup "networks" top with
+    | some (.map nets) => nets.any fun (_, n) =>
+      match n with
+      | .map nkv => match lookup "ipam" nkv with
+        | some (.map ikv) => match lookup "config" ikv with
+          | some (.seq pools) => pools.any fun pool => match pool with
+            | .map f => f.any fun (_, v) => match v with | .map _ => true | _ => false
+            | _ => false
+          | _ => false
+        | _ => false
+      | _ => false
+    | _ => false
+  | _ => false
+
+/-- is some failure of this merge inside `mergeIPAMConfig`?  (then which one is met first is left open) -/
+def touchesIpam (over : Val) : Bool :=
+  match over with
+  | .map top => match lookup "networks" top with
+    | some (.map nets) => nets.any fun (_, n) => match n with
+      | .map nkv => match lookup "ipam" nkv with
+        | some (.map ikv) => (lookup "config" ikv).isSome
+        | _ => false
+      | _ => false
+    | _ => false
+  | _ => false
+
+partial def failsEnforce (v : Val) (p : TPath) : List Json :=
+  match failJson (Unicity.enforce v p) with
+  | none => []
+  | some own =>
+    match v with
+    | .map kvs =>
+      let l := kvs.flatMap fun (k, e) => failsEnforce e (next p k)
+      if l.isEmpty then [own] else l
+    | _ => [own]
+
+/-- fold of `override.Merge` (or `ExtendService`) over the overrides, optionally followed each time by `EnforceUnicity` -/
+def mergeSeq : Handler := fun args =>
+  let base := getVal args "base"
+  let overs := getVals args "overs"
+  let uni := getBool args "unicity"
+  let ext := getBool args "extend"
+  let root : TPath := if ext then ["services", "x"] else TPath.root
+  -- `seen`: an earlier override already went through `mergeIPAMConfig`, whose result list can hold the same
+  -- map object twice; merging into it again is aliasing-sensitive (value semantics here) ⇒ hazard
+  let rec go (acc : Val) (l : List Val) (hz seen : Bool) : Json :=
+    match l with
+    | [] => outJson (.ok acc) [] hz
+    | o :: r =>
+      let m := if ext then extendService acc o else merge acc o
+      let hz' := hz || ipamHazard o || (seen && touchesIpam o)
+      let seen' := seen || touchesIpam o
+      match m with
+      | .ok v =>
+        if uni then
+          match Unicity.enforceTop v with
+          | .ok u => go u r hz' seen'
+          | f => Json.mergeObj (outJson f (failsEnforce v TPath.root)) (Json.mkObj [("loose", Json.bool hz')])
+        else go v r hz' seen'
+      | f =>
+        let alts := failsYaml (fuelFor o) acc o root
+        Json.mergeObj (outJson f alts) (Json.mkObj [("loose", Json.bool (touchesIpam o))])
+  go base overs false false
+
+def unicity : Handler := fun args =>
+  let v := getVal args "v"
+  outJson (Unicity.enforceTop v) (failsEnforce v TPath.root)
+
+def parseVolume : Handler := fun args =>
+  match Unicity.parseVolumeTarget (getStr args "spec") with
+  | some t => Json.mkObj [("ok", t)]
+  | none => Json.mkObj [("err", "invalidVolume")]
+
+/-- fold `Next` from the root over `keys`; report the parts and whether the path matches `pattern` -/
+def pathNext : Handler := fun args =>
+  let keys := getStrList args "keys"
+  let p := keys.foldl next TPath.root
+  let pat := splitDots (getStr args "pattern")
+  Json.mkObj [("parts", Json.arr (p.map Json.str).toArray), ("matches", Json.bool (TPath.pmatch pat p))]
+
+open CV.Reset in
+partial def nodeOfJson (j : Json) : YNode :=
+  let tag : Tag := match getStr j "t" with
+    | "reset" => .reset
+    | "override" => .override
+    | _ => .none
+  match j.getObjVal? "l" with
+  | .ok (.arr a) => .seq tag (a.toList.map nodeOfJson)
+  | .ok _ => .seq tag []
+  | .error _ =>
+    match j.getObjVal? "m" with
+    | .ok (.arr a) => .map tag (a.toList.filterMap fun e => match e with
+        | .arr #[.str k, v] => some (k, nodeOfJson v)
+        | _ => none)
+    | .ok _ => .map tag []
+    | .error _ => .scalar tag (getVal j "v")
+
+def pathStr (p : TPath) : String := ".".intercalate p
+
+/-- `yaml.Unmarshal(text, &ResetProcessor{target: &raw})`: decoded tree + recorded paths -/
+def reset : Handler := fun args =>
+  let doc := nodeOfJson (getObj args "doc")
+  let (v, ps) := CV.Reset.readDoc doc
+  Json.mkObj [("value", v.toJson), ("paths", Json.arr (ps.map fun p => Json.str (pathStr p)).toArray)]
+
+/-- the documents of a stream applied one after the other onto `base`: reset → merge → unicity -/
+def docs : Handler := fun args =>
+  let base := getVal args "base"
+  let ds := match getObj args "docs" with
+    | .arr a => a.toList.map nodeOfJson
+    | _ => []
+  let rec go (acc : Val) (l : List CV.Reset.YNode) (hz seen : Bool) : Json :=
+    match l with
+    | [] => outJson (.ok acc) [] hz
+    | d :: r =>
+      let (cfg, paths) := CV.Reset.readDoc d
+      let b := CV.Reset.applyNull paths acc TPath.root
+      let hz' := hz || ipamHazard cfg || (seen && touchesIpam cfg)
+      let seen' := seen || touchesIpam cfg
+      match merge b cfg with
+      | .ok m =>
+        match Unicity.enforceTop m with
+        | .ok u => go u r hz' seen'
+        | f => Json.mergeObj (outJson f (failsEnforce m TPath.root)) (Json.mkObj [("loose", Json.bool hz')])
+      | f => Json.mergeObj (outJson f (failsYaml (fuelFor cfg) b cfg TPath.root)) (Json.mkObj [("loose", Json.bool (touchesIpam cfg))])
+  go base ds false false
+
+def handlers : List (String × Handler) := [
+  ("c04.mergeSeq", mergeSeq), ("c04.unicity", unicity), ("c04.parseVolume", parseVolume),
+  ("c04.pathNext", pathNext), ("c04.reset", reset), ("c04.docs", docs)]
 
 end CV.Ops.C04
